@@ -37,13 +37,19 @@ macro_rules! pool {
             } )*
             panic!("no event callsite {lvl} {tgt}");
         }
-        /// name "s1" has a field `k` (kv: 0 = left Empty, n = given at creation), "s2" has no fields
-        fn mkspan(lvl: u64, tgt: &str, name: &str, kv: u64) -> tracing::Span {
+        /// name "s1" has a field `k` (kv: "" = left Empty, otherwise a value token whose spelling selects the Rust type), "s2" has no fields
+        fn mkspan(lvl: u64, tgt: &str, name: &str, kv: &str) -> tracing::Span {
             $( if lvl == $i && tgt == $tgt {
-                return match (name, kv) {
-                    ("s1", 0) => tracing::span!(target: $tgt, tracing::Level::$lvl, "s1", k = tracing::field::Empty),
-                    ("s1", v) => tracing::span!(target: $tgt, tracing::Level::$lvl, "s1", k = v),
-                    _ => tracing::span!(target: $tgt, tracing::Level::$lvl, "s2"),
+                if name != "s1" {
+                    return tracing::span!(target: $tgt, tracing::Level::$lvl, "s2");
+                }
+                return match tok(kv) {
+                    Tok::Empty => tracing::span!(target: $tgt, tracing::Level::$lvl, "s1", k = tracing::field::Empty),
+                    Tok::U(v) => tracing::span!(target: $tgt, tracing::Level::$lvl, "s1", k = v),
+                    Tok::I(v) => tracing::span!(target: $tgt, tracing::Level::$lvl, "s1", k = v),
+                    Tok::B(v) => tracing::span!(target: $tgt, tracing::Level::$lvl, "s1", k = v),
+                    Tok::F(v) => tracing::span!(target: $tgt, tracing::Level::$lvl, "s1", k = v),
+                    Tok::S(v) => tracing::span!(target: $tgt, tracing::Level::$lvl, "s1", k = v),
                 };
             } )*
             panic!("no span callsite {lvl} {tgt}");
@@ -55,6 +61,33 @@ pool! {
     1: ERROR "a::b", 2: WARN "a::b", 3: INFO "a::b", 4: DEBUG "a::b", 5: TRACE "a::b",
     1: ERROR "ab", 2: WARN "ab", 3: INFO "ab", 4: DEBUG "ab", 5: TRACE "ab",
     1: ERROR "b", 2: WARN "b", 3: INFO "b", 4: DEBUG "b", 5: TRACE "b",
+}
+
+/// a value token and the Rust type it is recorded with
+enum Tok<'a> {
+    Empty,
+    U(u64),
+    I(i64),
+    B(bool),
+    F(f64),
+    S(&'a str),
+}
+fn tok(s: &str) -> Tok<'_> {
+    if s.is_empty() {
+        Tok::Empty
+    } else if let Some(r) = s.strip_prefix("i:") {
+        Tok::I(r.parse().unwrap())      // "i:1": the integer 1 recorded as i64
+    } else if let Ok(v) = s.parse::<u64>() {
+        Tok::U(v)
+    } else if let Ok(v) = s.parse::<i64>() {
+        Tok::I(v)
+    } else if let Ok(v) = s.parse::<bool>() {
+        Tok::B(v)
+    } else if let Ok(v) = s.parse::<f64>() {
+        Tok::F(v)
+    } else {
+        Tok::S(s)
+    }
 }
 
 fn lf(r: u64) -> LevelFilter {
@@ -77,13 +110,21 @@ fn run_script(d: &Dispatch, rec: &RecLayer, script: &[Value]) -> Vec<Value> {
             let r = match op["op"].as_str().unwrap() {
                 "span" => {
                     let before = *rec.spans.lock().unwrap();
-                    let s = mkspan(op["lvl"].as_u64().unwrap(), op["tgt"].as_str().unwrap(), op["name"].as_str().unwrap(), op["k"].as_u64().unwrap());
+                    let s = mkspan(op["lvl"].as_u64().unwrap(), op["tgt"].as_str().unwrap(), op["name"].as_str().unwrap(), op["kt"].as_str().unwrap());
                     let live = *rec.spans.lock().unwrap() > before;
                     spans.insert(op["h"].as_u64().unwrap(), s);
                     json!(live)
                 }
                 "record" => {
-                    spans[&op["h"].as_u64().unwrap()].record("k", op["k"].as_u64().unwrap());
+                    let sp = &spans[&op["h"].as_u64().unwrap()];
+                    match tok(op["kt"].as_str().unwrap()) {
+                        Tok::Empty => {}
+                        Tok::U(v) => drop(sp.record("k", v)),
+                        Tok::I(v) => drop(sp.record("k", v)),
+                        Tok::B(v) => drop(sp.record("k", v)),
+                        Tok::F(v) => drop(sp.record("k", v)),
+                        Tok::S(v) => drop(sp.record("k", v)),
+                    }
                     json!(true)
                 }
                 "enter" => {
